@@ -13,7 +13,7 @@ class C13(Prop):
     id = 'C13'
     lean_modules = ['RSocketModel.Props.C13']
     technique = 'Lean 4 proof (induction over allocate/register/finish histories, parametric id width) + differential correspondence with StreamControl'
-    level_text = ('c13_request_on_active_id_rejected (engine model: for every state, stream-opening frame type and handler behaviour, a request on an id that is still active yields exactly one ERROR[REJECTED] and changes nothing), Theorems c13_alloc_sound, c13_fails_iff_full, c13_history (all id widths k>=1, all active sets, all histories) are kernel-checked on a model '
+    level_text = ('c13_registered_during_sweep_stays_reserved (stop_all_streams with owners that open a new stream at once: every stream registered during the walk is still reserved afterwards, for every table, allocator position and set of retrying owners), c13_request_on_active_id_rejected (engine model: for every state, stream-opening frame type and handler behaviour, a request on an id that is still active yields exactly one ERROR[REJECTED] and changes nothing), Theorems c13_alloc_sound, c13_fails_iff_full, c13_history (all id widths k>=1, all active sets, all histories) are kernel-checked on a model '
                   'of StreamControl; the model is tied to the code by the regenerated constant (2^31-1) and by running the real StreamControl and the compiled '
                   'Lean model on the same histories (exhaustive short histories on a 3-bit space, random on 3/4/7 bits, full width near the wrap).')
     level_note = ('Trusted: Lean kernel, axioms propext/Classical.choice/Quot.sound, the hand-written model as far as the correspondence reaches, harness; '
@@ -108,7 +108,9 @@ class C13(Prop):
             i = sc.allocate_stream()
             sc.register_stream(i, Retrying() if r else Plain())
             pre_ids.append(i)
+        cur_before = sc._current_stream_id
         sc.stop_all_streams()
+        cur_after, active_after = sc._current_stream_id, sorted(sc._streams)
         outs = []
         for op in case['ops']:
             if op in ('a', 'o'):
@@ -128,7 +130,8 @@ class C13(Prop):
                     outs.append('Q1')
                 except RSocketStreamIdInUse:
                     outs.append('Q0')
-        return {'mode': 'sweep', 'pre_ids': pre_ids, 'swept': swept, 'outs': outs, 'active': sorted(sc._streams)}
+        return {'mode': 'sweep', 'pre_ids': pre_ids, 'swept': swept, 'outs': outs, 'active': sorted(sc._streams), 'cur_before': cur_before, 'cur_after': cur_after,
+                'active_after': active_after}
 
     def run_impl(self, case):
         if case.get('mode') == 'endpoint':
@@ -208,7 +211,8 @@ class C13(Prop):
 
     def model_lines(self, case, obs):
         if case.get('mode') == 'sweep':
-            return []
+            retry = [i for i, r in zip(obs['pre_ids'], case['retry']) if r]
+            return ['sweep %d %d %s %s' % (case['k'], obs['cur_before'], ','.join(map(str, obs['pre_ids'])) or '-', ','.join(map(str, retry)) or '-')]
         if case.get('mode') == 'endpoint':
             first = 2 if case['role'] == 'server' else 1
             return ['eng %d 0 %s' % (first, ' '.join(m for m, _ in obs['steps']))]
@@ -217,7 +221,8 @@ class C13(Prop):
 
     def compare(self, case, obs, answers):
         if case.get('mode') == 'sweep':
-            return None
+            impl = 'new=%s | cur=%d active=%s' % (','.join(map(str, obs['swept'])) or '-', obs['cur_after'], ','.join(map(str, obs['active_after'])) or '-')
+            return None if impl == answers[0] else 'stop_all_streams: impl %s / model %s' % (impl, answers[0])
         if case.get('mode') == 'endpoint':
             from harness import engine
             body = answers[0].split(' || ')[0]
